@@ -339,7 +339,7 @@ func runC17(c *ctx) {
 				}
 				gen++
 				var routes []*gRetryRoute
-				nr := r.intn(3)
+				nr := r.intn(4)
 				if prevGens := past[tn]; len(prevGens) > 0 && r.chance(35) {
 					// an earlier generation of this table comes back unchanged (same clusters, same policies): what was
 					// deleted in between has to be installed again
@@ -354,6 +354,12 @@ func runC17(c *ctx) {
 					base := fmt.Sprintf("%s-c%d", tn, k)
 					if r.chance(25) {
 						base = fmt.Sprintf("%s-c%d-g%d", tn, k, gen)
+					}
+					if k > 0 && r.chance(35) {
+						// a second match rule (or a traffic split) that names a cluster an earlier route of the table names
+						// too: the later route's numbers and its methods count for that cluster as well
+						base = routes[0].Clusters[0]
+						c.count("route-shares-cluster", 1)
 					}
 					g.Clusters = []string{base}
 					if r.chance(25) {
